@@ -33,6 +33,10 @@ Inductive Reachable : N -> Prop :=
 Definition reachable_writes : list (N * N * string) :=
   filter (fun w => mem_nat (fst (fst w)) reach) write_sites.
 
+(* hash order: sites at which the iteration order of a set can reach a result, in reachable functions *)
+Definition reachable_order_leaks : list (N * N * string) :=
+  filter (fun w => mem_nat (fst (fst w)) reach) order_sites.
+
 Definition fn_name (i : N) : string := nth (N.to_nat i) fn_names ""%string.
 
 (* the only places the wall clock / random numbers may be read *)
